@@ -59,12 +59,12 @@ TOL_UNIT = 1e3 * EPS   # | |S'| - 1 |;                                          
 # ---------------------------------------------------------------------------------------------
 # reference geometry
 
-def ref_rotmat(zyx):
-    """Rx(x) Ry(y) Rz(z) for angles given in degrees in the order (z, y, x); identity for None."""
+def ref_rotmat(zyx, radians=False):
+    """Rx(x) Ry(y) Rz(z) for angles given (in degrees unless radians) in the order (z, y, x), missing trailing angles = 0; identity for None."""
     if zyx is None:
         return np.eye(3)
     a = [0.0, 0.0, 0.0]
-    a[:len(zyx)] = [math.radians(v) for v in zyx]
+    a[:len(zyx)] = [float(v) if radians else math.radians(v) for v in zyx]
     g, b, al = a
     Rx = np.array([[1, 0, 0], [0, math.cos(al), -math.sin(al)], [0, math.sin(al), math.cos(al)]])
     Ry = np.array([[math.cos(b), 0, math.sin(b)], [0, 1, 0], [-math.sin(b), 0, math.cos(b)]])
@@ -627,9 +627,11 @@ def q_shapes(tier, ks):
 def poses(tier):
     Ps = [[0.0, 0.0, 10.0], [1.5, -2.0, 12.0], 25.0]
     Rs = [None, [0, 5, 3], [10, 0, 0]]
+    R3 = [25, 9, 12]                                        # all three angles non-zero and distinct
     if tier == 'thorough':
-        Rs += [[-20, -8, 6]]
-    return [{'P': P, 'R': Rz} for P in Ps for Rz in Rs]
+        Rs += [R3, [-20, -8, 6], [-7, 13, 4], [3, -20, 31]]
+        return [{'P': P, 'R': Rz} for P in Ps for Rz in Rs]
+    return [{'P': P, 'R': Rz} for P in Ps for Rz in Rs] + [{'P': Ps[1], 'R': R3}]
 
 
 TYPES = [{'typ': 'refl', 'n': 1.0, 'n0': 1.0},
@@ -695,22 +697,29 @@ def run_frames(case, seed, R):
     Pv = ref_Pvec(case['P'])
     zyx = case['R']
     form = case['form']
+    rad = bool(case.get('radians', False))
     sig = 'frames:' + ('R' if zyx is not None else 'noR')
     Rm = None
     if zyx is not None:
-        Rm = as_array(R, R.call(make_rotation_matrix, zyx), (3, 3), 'make_rotation_matrix', 'rotation matrix')
+        nzc = 'angles' + str(sum(1 for v in zyx if v != 0)) + (':radians' if rad else '')
+        kw = {'radians': True} if rad else {}
+        Rm = as_array(R, R.call(make_rotation_matrix, zyx, **kw), (3, 3), 'make_rotation_matrix', 'rotation matrix')
         if Rm is None:
             return
-        R.expect_close(Rm.T @ Rm, np.eye(3), 8 * EPS, 'make_rotation_matrix:orthonormal', f'R^T R != I for {zyx}')
-        R.expect_close(np.linalg.det(Rm), 1.0, 8 * EPS, 'make_rotation_matrix:det', f'det R != 1 for {zyx}')
-        R.expect_close(Rm, ref_rotmat(zyx), 8 * EPS, 'make_rotation_matrix:convention', f'R != Rx Ry Rz for {zyx}')
+        # orthonormality, handedness AND the values, against the independent composition Rx @ Ry @ Rz written here
+        R.expect_close(Rm.T @ Rm, np.eye(3), 8 * EPS, f'make_rotation_matrix:orthonormal:{nzc}', f'R^T R != I for {zyx}')
+        R.expect_close(np.linalg.det(Rm), 1.0, 8 * EPS, f'make_rotation_matrix:det:{nzc}', f'det R != 1 for {zyx}')
+        R.expect_close(Rm, ref_rotmat(zyx, rad), 8 * EPS, f'make_rotation_matrix:values:{nzc}', f'R != Rx Ry Rz for {zyx} radians={rad}')
+        for alt, lab in ((tuple(zyx), 'tuple'), (np.array(zyx, dtype=float), 'ndarray')):
+            R.expect_equal(R.call(make_rotation_matrix, alt, **kw), Rm, 'make_rotation_matrix:argform', f'angles given as {lab} {zyx}')
         nz = [i for i, v in enumerate(zyx) if v != 0]
         if len(nz) == 1:
             ax = np.zeros(3)
             ax[2 - nz[0]] = 1          # (z, y, x) order
+            ang = zyx[nz[0]] if rad else math.radians(zyx[nz[0]])
             R.expect_close(Rm @ ax, ax, 8 * EPS, 'make_rotation_matrix:axis', f'single-axis rotation {zyx} moves its axis')
-            R.expect_close(np.trace(Rm), 1 + 2 * math.cos(math.radians(zyx[nz[0]])), 8 * EPS, 'make_rotation_matrix:angle', f'rotation angle of {zyx}')
-    Rref = ref_rotmat(zyx)
+            R.expect_close(np.trace(Rm), 1 + 2 * math.cos(ang), 8 * EPS, 'make_rotation_matrix:angle', f'rotation angle of {zyx}')
+    Rref = ref_rotmat(zyx, rad)
     X, S = bundle('quick', dirs=directions('quick'))
     X = X[::11] + 3.0 * dense((X[::11].shape[0], 3), seed, 5, complex_=False)
     S = S[::11]                # directions 0,0,0,1,1,2,2,3,3,3
@@ -854,7 +863,7 @@ def pool(tier):
         {'shape': {'kind': 'conic', 'c': -1 / 50, 'k': -0.6}, 'P': [0.0, 0.0, 14.0], 'R': [0, 5, 3], 'typ': 'refr', 'n': 1.0},
         {'shape': {'kind': 'plane'}, 'P': [1.5, -2.0, 20.0], 'R': [10, 0, 0], 'typ': 'refr', 'n': 1.5},
         {'shape': {'kind': 'conic', 'c': -1 / 80, 'k': -1.0}, 'P': 60.0, 'R': None, 'typ': 'refl', 'n': 1.0},
-        {'shape': {'kind': 'oac', 'c': -1 / 100, 'k': -1.0, 'dx': 20.0, 'dy': 0.0}, 'P': [0.0, 0.0, 50.0], 'R': [0, 5, 3], 'typ': 'refl', 'n': 1.0},
+        {'shape': {'kind': 'oac', 'c': -1 / 100, 'k': -1.0, 'dx': 20.0, 'dy': 0.0}, 'P': [0.0, 0.0, 50.0], 'R': [25, 9, 12], 'typ': 'refl', 'n': 1.0},
     ]
 
 
@@ -940,7 +949,7 @@ def far_cases(tier):
     shp = [{'kind': 'plane'}, {'kind': 'sphere', 'c': 1 / 50}, {'kind': 'sphere', 'c': -1 / 50}, {'kind': 'conic', 'c': 1 / 50, 'k': -1.0},
            {'kind': 'conic', 'c': -1 / 50, 'k': -0.6}, {'kind': 'oac', 'c': 1 / 50, 'k': -1.0, 'dx': 20.0, 'dy': 0.0},
            {'kind': 'q2d', 'q': '2d', 'c': 1 / 50, 'k': 0.0, 'dx': 0.0, 'dy': 0.0, 'nr': 45.0}]
-    pos = [{'P': [0.0, 0.0, 10.0], 'R': None}, {'P': [1.5, -2.0, 12.0], 'R': [0, 5, 3]}]
+    pos = [{'P': [0.0, 0.0, 10.0], 'R': None}, {'P': [1.5, -2.0, 12.0], 'R': [0, 5, 3]}, {'P': [1.5, -2.0, 12.0], 'R': [3, -20, 31]}]
     Zs = [1e3, 1e7] if tier == 'quick' else [1e3, 1e5, 1e7, 1e9]
     return [{'surf': sdesc(s_, p_, t), 'n0': t['n0'], 'Z0': Z0, 'zdir': zd}
             for s_ in shp for p_ in pos for t in TYPES[:3] for Z0 in Zs for zd in (1, -1)]
@@ -955,7 +964,7 @@ def media_pool():
         {'shape': {'kind': 'conic', 'c': -1 / 100, 'k': -1.0}, 'P': [0.0, 0.0, 50.0], 'R': None, 'typ': 'refl', 'n': None},
         {'shape': {'kind': 'conic', 'c': 1 / 200, 'k': 0.0}, 'P': [1.5, -2.0, 8.0], 'R': None, 'typ': 'eval', 'n': None},
         {'shape': {'kind': 'sphere', 'c': 1 / 50}, 'P': [0.0, 0.0, 10.0], 'R': None, 'typ': 'refr', 'n': 1.5},
-        {'shape': {'kind': 'conic', 'c': -1 / 50, 'k': -0.6}, 'P': [0.0, 0.0, 14.0], 'R': [0, 5, 3], 'typ': 'refr', 'n': 1.0},
+        {'shape': {'kind': 'conic', 'c': -1 / 50, 'k': -0.6}, 'P': [0.0, 0.0, 14.0], 'R': [-7, 13, 4], 'typ': 'refr', 'n': 1.0},
     ]
 
 
@@ -1093,8 +1102,12 @@ def plan(tier, seed):
             for s in shp if s['kind'] != 'q2d' for p in pos for t in (TYPES[:2] if tier == 'quick' else TYPES[:3]) for sk in (False, True)]
     ref = [{'shape': s} for s in shp + q_shapes(tier, ks=(-0.6,))]
     frames = [{'P': p['P'], 'R': p['R'], 'form': f} for p in pos for f in ('batch', 'single')]
-    if tier == 'thorough':
-        frames += [{'P': [1.5, -2.0, 12.0], 'R': r, 'form': 'batch'} for r in ([30, 0, 0], [0, -45, 0], [0, 0, 90], [170, 60, -100])]
+    # rotation alphabet: every subset of non-zero angles, all three non-zero and distinct, negative, > 90 deg, short forms, radians
+    rots = [[30, 0, 0], [0, -45, 0], [0, 0, 90], [12, -7, 0], [0, 21, -33], [-7, 13, 4], [3, -20, 31], [170, 60, -100], [-135, 100, 95],
+            [95, 95, 95], [40], [20, -10]]
+    frames += [{'P': [1.5, -2.0, 12.0], 'R': r, 'form': 'batch'} for r in rots]
+    frames += [{'P': [1.5, -2.0, 12.0], 'R': r, 'form': f, 'radians': True}
+               for r in ([0.4, 0.0, 0.0], [0.0, -0.3, 0.0], [0.0, 0.0, 0.2], [0.4, -0.3, 0.2], [2.5, 1.7, -2.0], [-0.1, 0.2]) for f in ('batch', 'single')]
     L = 2 if tier == 'quick' else 3
     seqs = [list(t) for n in range(1, L + 1) for t in itertools.product(range(5), repeat=n)]
     seq = [{'seq': s, 'n0': 1.0, 'form': 'batch', 'tier': tier} for s in seqs]
@@ -1109,8 +1122,9 @@ def plan(tier, seed):
                   'differences of the closed-form sag and against the implicit quadric (self-test of the trusted base); the library\'s sag against the closed form; '
                   'the DIRECTION of Surface.sag_normal against the reference normal away from r=0', reset=rs_),
         ScopeUnit('frames', frames, run_frames,
-                  'every pose (3 positions incl. a scalar P, x tilts None/(0,5,3)/(10,0,0) deg [+more in thorough]) x call form (batch, single 1-D ray): '
-                  'make_rotation_matrix orthonormal, det +1, single-axis angle; transform_to_local_coords / transform_to_global_coords preserve pairwise distances, '
+                  'every pose (3 positions incl. a scalar P, x tilts None/(0,5,3)/(10,0,0) deg + the decentred position with (25,9,12) [thorough: 3 x 7 tilts]) x call form (batch, single 1-D ray), plus a rotation '
+                  'alphabet (each single axis, each pair, all three angles non-zero and distinct, negative, > 90 deg, equal angles, 1- and 2-element forms, and radians=True forms): '
+                  'make_rotation_matrix orthonormal, det +1 AND equal in value to the composition Rx @ Ry @ Rz written in this module, same for tuple / ndarray angle arguments, single-axis angle; transform_to_local_coords / transform_to_global_coords preserve pairwise distances, '
                   'dot products, mixed products and handedness, agree with local = R (X - P), are mutual inverses (with R^T), map P to the origin; points are '
                   'lattice points plus one seeded generic displacement', reset=rs_),
         ScopeUnit('single', single, run_single,
